@@ -7,6 +7,7 @@ import (
 	"strings"
 
 	z "github.com/Oudwins/zog"
+	"github.com/Oudwins/zog/internals"
 )
 
 // Case is one generated (schema, input, mode) with everything observed on the implementation.
@@ -25,6 +26,11 @@ type Case struct {
 	CtxOK     bool
 	Repeats   []string // canonical renderings of repeated runs (C09 oracle)
 	dest0v    reflect.Value
+	FE        string // front end the input travelled through ("" = plain Go value)
+	DataCoq   string // Gallina [data] term when the input is a provider or a factory
+	FEChecked bool   // the cross-front-end oracle applied
+	FEDiff    string // ... and what it found
+	FENested  bool   // ... in a schema with a nested struct read from a flat source (the recorded finding)
 }
 
 func indexIDs(n *Node, m map[int]*Node) {
@@ -193,7 +199,13 @@ func NewCase(g *Gen, id int, forceValidate *bool) *Case {
 	var structs []*Node
 	structNodes(n, &structs)
 
+	freshPools := g.R.P(50)
 	run := func() (Observed, map[*Node][]string, bool) {
+		if freshPools {
+			// start from freshly allocated pooled objects (path builders at their initial capacity, ...);
+			// the other half of the cases runs on whatever the previous cases left in the pools
+			internals.ClearPools()
+		}
 		dest := copyDest(t, dest0)
 		var data any
 		log := &orderLog{visits: map[*Node][][]string{}}
@@ -286,6 +298,8 @@ func (c *Case) Coq() string {
 	data := "(DVal VNil)"
 	if c.Validate {
 		mode = "Validate"
+	} else if c.DataCoq != "" {
+		data = c.DataCoq
 	} else {
 		data = "(DVal " + CoqIVal(*c.In) + ")"
 	}
@@ -316,6 +330,12 @@ func (s *Stats) Add(c *Case) {
 	s.Cases++
 	if c.Validate {
 		s.Validate++
+	}
+	if c.FE != "" {
+		s.Kinds["fe:"+c.FE]++
+	}
+	if c.FEChecked {
+		s.Kinds["fe:cross-front-end oracle applied"]++
 	}
 	if c.Known {
 		s.Known++
